@@ -337,6 +337,44 @@ theorem mutation_touches_one_container (w : World) (t : Target) (x : Name) (n : 
     ∀ c : Nat, w.read t x ≠ some (.ref c) → deref (step w (.mutVal t x n)).1.cells c = deref w.cells c :=
   ⟨(doMutVal_frame w t x n).1, (doMutVal_frame w t x n).2.1, (doMutVal_frame w t x n).2.2.2⟩
 
+/-- **C12 (class-level copy-on-write).**  `K.x = v` on a class that inherits `x` installs a Parameter object
+of its own whose mutable attribute values (`_objects`, `names`, list `bounds`, ...) are NEW containers: from
+then on in-place changes of the subclass's Parameter attributes do not reach the ancestor's (only `default`
+objects stay shared, as for per-instance copies). -/
+theorem subclass_copy_has_own_slots (w : World) (k k' : ClsId) (x : Name) (lit : Lit) (P : PObj)
+    (hr : w.resolve k x = some (k', P)) (hne : k' ≠ k) (hok : (doSetClsCore w k x lit).2 = none) :
+    ∃ (K : Cls) (p : PObj), (doSetClsCore w k x lit).1.classes[k]? = some K ∧ aget K.own x = some p ∧
+      p.owner = .cls k ∧ ∀ c : Nat, c ∈ p.slotCells → w.cells.length ≤ c := by
+  unfold doSetClsCore at hok ⊢
+  simp only [hr] at hok ⊢
+  generalize hev : evalLit w.cells lit = r at hok ⊢
+  obtain ⟨v, cells1⟩ := r
+  obtain ⟨⟨extra, rfl⟩, _⟩ := evalLit_spec hev
+  simp only [hne, if_false] at hok ⊢
+  generalize hcs : copySlots (w.cells ++ extra) P.mslots = r2 at hok ⊢
+  obtain ⟨ms, c2⟩ := r2
+  obtain ⟨_, hfresh⟩ := copySlots_spec _ _ _ _ hcs
+  simp only at hok ⊢
+  have hk : ∃ K0, w.classes[k]? = some K0 := by
+    unfold World.resolve World.cls? at hr
+    cases h : w.classes[k]? with
+    | none => simp [h] at hr
+    | some K0 => exact ⟨K0, rfl⟩
+  obtain ⟨K0, hK0⟩ := hk
+  split at hok
+  · simp at hok
+  · rename_i cells2 _
+    have h1 := setOwn_get (w := { w with cells := c2 }) (x := x)
+      (p := { P with owner := Owner.cls k, mslots := ms }) hK0
+    have h2 := setOwn_get (w := { ({ w with cells := c2 }).setOwn k x { P with owner := Owner.cls k, mslots := ms } with cells := cells2 })
+      (x := x) (p := { P with owner := Owner.cls k, mslots := ms, default := v }) h1
+    refine ⟨_, { P with owner := Owner.cls k, mslots := ms, default := v }, h2, aget_aset_self _ _ _, rfl, ?_⟩
+    intro c hc
+    simp only [PObj.slotCells, List.mem_map] at hc
+    obtain ⟨sc, hsc, rfl⟩ := hc
+    have := hfresh sc.1 sc.2 hsc
+    simp at this; omega
+
 /-! ## Non-vacuity -/
 
 def c12Decls : List Decl :=
